@@ -23,6 +23,7 @@ RULE = ('random programs of 1-5 operations from {copy, slice (int/slice/list '
         'every step. non-trivial = the operation returned; distinct = digest '
         'of (operation, input digest).')
 RULE += (" save(format='ioapi') is a legal query step inside a program (the next file built must not inherit anything); programs stop after apply over TSTEP (time metadata is then the caller's).")
+RULE += (' A share of the gridded files is the IOAPI-class object the CAMx gridded READER (uamiv) returns for an image written by the independent codec (whole-hour steps up to 168 h, ETFLAG present, header completed by the class).')
 ASSUMPTIONS = [
     'a file with zero listed variables may keep VAR/TFLAG second axis of '
     'length 1 (the convention cannot express an empty axis)',
@@ -62,7 +63,8 @@ def ncases(tier):
 
 
 def gen(rng, idx, tier, seed):
-    via = ['from_arrays', 'griddesc', 'disk', 'from_arrays'][idx % 4]
+    via = ['from_arrays', 'griddesc', 'disk', 'from_arrays', 'from_arrays',
+           'griddesc', 'disk', 'uamiv'][idx % 8]
     fs = gen_ioapi.gen_spec(rng, via='from_arrays' if via == 'disk' else via)
     return {'file': fs, 'disk': via == 'disk',
             'prog_seed': int(rng.integers(1 << 30)),
@@ -89,6 +91,8 @@ def run(spec, res):
     from .. import harness
     with harness.casedir() as d, harness.handles() as h:
         f = gen_ioapi.build(spec['file'])
+        if spec['file'].get('via') == 'uamiv':
+            res.facet('source:camx-reader')
         if spec.get('disk'):
             import os
             import PseudoNetCDF as pnc
